@@ -169,6 +169,12 @@ class SamplerRecorder:
             if d != d:
                 continue
             alpha = math.exp(-d) if d > -50 else math.inf
+            if d > (110.0 if self.is_single(indep, ("nll_attach", "nll_attach_ind", "nll_regul_ind_sum_ind")) else 750.0):
+                # alpha is exactly 0 (underflow): the smallest possible draw, 0, is still not below it
+                self.toggle += 1
+                if self.toggle % 2:
+                    flat[i] = 0.0
+                continue
             if alpha < 1e-4:
                 continue                      # keep the natural draw (float32 resolution)
             self.toggle += 1
@@ -217,14 +223,34 @@ class SamplerRecorder:
         return att, regs
 
     @staticmethod
-    def cmp_class(u, d):
-        """u vs alpha = exp(-d) -> 'lt' | 'ge' | 'tie'."""
+    def cmp_class(u, d, single=True):
+        """u vs alpha = exp(-d) -> 'lt' | 'ge' | 'tie'.  `single`: the implementation's D (hence alpha) is in single precision."""
         if d != d:
             return "ge"                     # u < nan is False
+        # exp(-d) underflows to exactly 0 beyond d ~ 104 in single precision (~745 in double): then nothing, not even
+        # u = 0, is below it
+        lo, hi = (87.0, 104.5) if single else (708.0, 746.0)
+        if d > hi:
+            return "ge"
+        if d > lo:
+            return "tie" if u < 1e-37 else "ge"      # subnormal range of alpha: not judged for tiny draws
         alpha = math.exp(-d) if d > -700 else math.inf
         if 0 < alpha < 1 and abs(u - alpha) <= TIE_REL * alpha:
             return "tie"
         return "lt" if u < alpha else "ge"
+
+    @staticmethod
+    def is_single(state, names):
+        """True when every term of the implementation's D is held in single precision (the precision of exp(-D))."""
+        for n in names:
+            try:
+                v = state._values.get(n)
+                v = v.value if hasattr(v, "value") else v
+                if v is not None and v.dtype == torch.float64:
+                    return False
+            except Exception:  # noqa: BLE001
+                pass
+        return True
 
     def reads_ok(self, state, ref):
         if not self.check_reads:
@@ -283,7 +309,7 @@ class SamplerRecorder:
                 a1, r1 = self.pop_terms(f_new, name)
                 d = float(a1 - a0) + beta * sum(float(r1[v] - r0[v]) for v in r0)
                 u = float(rands[0]) if rands else 0.0
-                cmp = self.cmp_class(u, d)
+                cmp = self.cmp_class(u, d, self.is_single(state, ("nll_attach",) + tuple(f"nll_regul_{v}" for v in r0)))
                 accepted = len(reverts) == 0
                 x_post = _tv(state._values[name]) if put is steps[-1][1] else None
                 post_val = _tv(reverts[-1][2]) if reverts else x_prop
@@ -304,7 +330,8 @@ class SamplerRecorder:
                 a1, r1 = self.ind_terms(f_new, name)
                 dvec = (a1 - a0) + beta * sum((r1[v] - r0[v]) for v in r0)
                 us = rands[0].double().reshape(-1) if rands else torch.zeros(len(blocks), dtype=torch.double)
-                cmps = [self.cmp_class(float(us[i]), float(dvec[i])) for i in range(len(blocks))]
+                single = self.is_single(state, ("nll_attach_ind", f"nll_regul_{name}_ind", "nll_regul_ind_sum_ind"))
+                cmps = [self.cmp_class(float(us[i]), float(dvec[i]), single) for i in range(len(blocks))]
                 if reverts and reverts[-1][1] is not None:
                     acc = (~reverts[-1][1].to(torch.bool)).reshape(-1).tolist()
                 else:
@@ -315,7 +342,8 @@ class SamplerRecorder:
                                and tensors_equal(x_post[~accm], x_old[~accm]))
                 evs.append({"op": "StepInd", "name": uid, "n_randn": len(randns), "z_matches": z_matches,
                             "n_rand": len(rands), "cmps": cmps, "accepted": [bool(a) for a in acc], "post_ok": post_ok,
-                            "reads_ok": True, "beta": beta})
+                            "reads_ok": True, "beta": beta,
+                            "us": [round(float(x), 7) for x in us], "ds": [float(x) if float(x) == float(x) else "nan" for x in dvec]})
                 self.n_decisions += len(blocks)
                 self.n_ties += sum(c == "tie" for c in cmps)
                 order = list(blocks)
@@ -411,6 +439,31 @@ def extreme_scenario(rec, model, seed):
         rec.wrap(smp)
         for _ in range(2):
             smp.sample(state, temperature_inv=1.0)
+    # proposals that stay finite but are prohibitive (D in the hundreds / thousands: alpha underflows to 0)
+    for kind_name in ("Gibbs", "FastGibbs", "Metropolis-Hastings"):
+        smp = sampler_factory(kind_name, PopulationLatentVariable, name=var, shape=shape, scale=2.5, acceptation_history_length=2)
+        rec.wrap(smp)
+        for _ in range(3):
+            smp.sample(state, temperature_inv=1.0)
+    # an individual whose proposals evaluate to NaN from a finite current state: a huge acceleration exactly at a visit
+    # (exp(xi) (t - tau) = big * 0 is finite, inf * 0 is not)
+    if "xi" in state.dag and "tau" in state.dag and "t" in state.dag:
+        st2 = state.clone()
+        tt = st2["t"]
+        t00 = float((tt.value if hasattr(tt, "value") else tt)[0, 0])
+        with st2.auto_fork(None):
+            xi, tau = st2["xi"].clone(), st2["tau"].clone()
+            xi[0, 0], tau[0, 0] = 88.5, t00
+            st2["xi"], st2["tau"] = xi, tau
+        n_ind = st2["xi"].shape[0]
+        smp = sampler_factory("Gibbs", IndividualLatentVariable, name="xi", shape=(1,), n_patients=n_ind, scale=1.0, acceptation_history_length=2)
+        rec.wrap(smp)
+        for _ in range(10):
+            with st2.auto_fork(None):
+                xi = st2["xi"].clone()
+                xi[0, 0] = 88.5                 # (back to the edge of the single-precision range before every call)
+                st2["xi"] = xi
+            smp.sample(st2, temperature_inv=0.5)
     with state.auto_fork(None):
         state[var] = state[var] + 95.0          # exp overflow: the attachment is not finite any more
     smp = sampler_factory("Gibbs", PopulationLatentVariable, name=var, shape=shape, scale=state[var].abs(),
